@@ -776,7 +776,11 @@ Definition shape (c : coeffs) : Prop := k_b1 c = k_b0 c /\ k_a2 c = f_0 /\ k_b2 
 Lemma from_params_shape : forall fs f0 c, from_params fs f0 = Some c -> shape c.
 Proof.
   intros fs f0 c. unfold from_params. destruct (flt fs (fmul f_2 f0)); [discriminate|].
-  intros H. injection H as <-. unfold shape. cbn [k_b1 k_b0 k_a2 k_b2]. auto.
+  cbv zeta.
+  match goal with |- Some (mkCoeffs ?a _ ?b _ _) = Some c -> _ => generalize a, b end.
+  intros a b H.
+  assert (E : c = mkCoeffs a f_0 b b f_0) by congruence.
+  rewrite E. unfold shape. cbn [k_b1 k_b0 k_a2 k_b2]. auto.
 Qed.
 
 Lemma glide_new_shape : forall fs g, glide_new fs = Some g -> shape (d_c (g_lpf g)).
